@@ -27,6 +27,9 @@ package main
 //                  logged, then the flush: each entry must reach the writer installed when its logging call was made;
 //        invoke  — the real tars Protocol.Invoke with a dispatcher whose method logs through a slow writer and panics:
 //                  the framework's own `defer CheckPanic()`; entries in the log, exit status 255;
+//        clientcall — ServantProxy.TarsInvoke with a registered client filter that logs and panics (the client-side guard);
+//                  all three exit modes range over the kind of the panic value (c20PanicKinds: runtime errors, string,
+//                  error values, int, struct, pointer, Stringer, panic(nil), slice, float), every kind at every place;
 //        runexit — entries are logged while tars.Run is running; SIGTERM; Run returns through its deferred FlushLogger;
 //        second  — flush, log again, flush again (FlushLogger is one-shot in the code: known finding).
 
@@ -35,6 +38,7 @@ import (
 	"context"
 	"encoding/binary"
 	"encoding/json"
+	"errors"
 	"fmt"
 	"math/rand"
 	"os"
@@ -91,6 +95,10 @@ type c20Scenario struct {
 	GapMs  int `json:"gap_ms,omitempty"`
 	// only WriteLog / Trace calls (the paths that do not go through Writef)
 	Raw bool `json:"raw,omitempty"`
+	// exit-through-CheckPanic modes: what is panicked with (index into c20PanicKinds), and for mode invoke whether the
+	// panic happens in a registered pre server filter instead of the dispatcher's method
+	Kind     int  `json:"kind,omitempty"`
+	InFilter bool `json:"in_filter,omitempty"`
 }
 
 type c20ChildOut struct {
@@ -291,7 +299,67 @@ func (d *c20Disp) Dispatch(ctx context.Context, imp interface{}, req *requestf.R
 	return nil
 }
 
-func c20ExitMode(m string) bool { return m == "panic" || m == "invoke" }
+func c20ExitMode(m string) bool { return m == "panic" || m == "invoke" || m == "clientcall" }
+
+// the kinds of panic value a guarded goroutine may die with: CheckPanic must dump, flush and exit for every one of them
+var c20PanicKinds = []string{"nil-map-write", "string", "errors.New", "int", "struct", "nil-deref", "stringer", "struct-pointer",
+	"panic(nil)", "index-out-of-range", "wrapped-error", "byte-slice", "divide-by-zero", "type-assertion", "custom-error", "float"}
+
+type c20PStruct struct {
+	A int
+	B string
+}
+type c20PStringer struct{ n int }
+
+func (s c20PStringer) String() string { return fmt.Sprintf("stringer-%d", s.n) }
+
+type c20PErr struct{ code int }
+
+func (e *c20PErr) Error() string { return fmt.Sprintf("custom error %d", e.code) }
+
+// c20Boom panics with a value of the given kind
+func c20Boom(kind int) {
+	var zero int
+	var np *c20PStruct
+	var anyv interface{} = "text"
+	switch kind % len(c20PanicKinds) {
+	case 0:
+		var m map[string]int
+		m["boom"] = 1
+	case 1:
+		panic("c20: a string")
+	case 2:
+		panic(errors.New("c20: an error"))
+	case 3:
+		panic(42)
+	case 4:
+		panic(c20PStruct{A: 7, B: "seven"})
+	case 5:
+		_ = np.A
+	case 6:
+		panic(c20PStringer{n: 3})
+	case 7:
+		panic(&c20PStruct{A: 8})
+	case 8:
+		panic(nil)
+	case 9:
+		l := []int{1, 2}
+		_ = l[2+zero]
+	case 10:
+		panic(fmt.Errorf("c20: wrapped: %w", os.ErrNotExist))
+	case 11:
+		panic([]byte("c20 bytes"))
+	case 12:
+		_ = 1 / zero
+	case 13:
+		_ = anyv.(int)
+	case 14:
+		panic(&c20PErr{code: 78})
+	case 15:
+		panic(3.5)
+	}
+	panic("c20: unreachable kind")
+}
 
 func c20WaitFor(cond func() bool, d time.Duration) bool {
 	dl := time.Now().Add(d)
@@ -519,9 +587,16 @@ func c20RunScenario(sc c20Scenario) c20ChildOut {
 			wg.Wait()
 			env.rec(flushSlot, c20KFlushCall, 0, 0, 0)
 			fmt.Fprintf(env.file, "P %d\n", time.Now().UnixNano())
-			var m map[string]int
-			m["boom"] = 1 // nil map write inside the servant method
+			c20Boom(sc.Kind) // inside the servant method (or the filter)
 		}}
+		if sc.InFilter {
+			run := disp.run
+			disp.run = func() {}
+			tars.RegisterPreServerFilter(func(ctx context.Context, d tars.Dispatch, f interface{}, req *requestf.RequestPacket, resp *requestf.ResponsePacket, withContext bool) error {
+				run()
+				return nil
+			})
+		}
 		p := tars.VerifNewProtocol(disp, nil, sc.JSON)
 		rq := requestf.RequestPacket{IVersion: 1, CPacketType: 0, IRequestId: 7, SServantName: "verif.c20", SFuncName: "boom", SBuffer: []int8{},
 			ITimeout: int32(sc.Last), Context: map[string]string{}, Status: map[string]string{}}
@@ -533,6 +608,24 @@ func c20RunScenario(sc c20Scenario) c20ChildOut {
 		copy(frame[4:], body)
 		p.Invoke(context.Background(), frame)
 		out.Hook = "Protocol.Invoke returned after the servant method panicked"
+		return out
+	case "clientcall":
+		// the client-side guard: ServantProxy.TarsInvoke's `defer CheckPanic()`, panic in a registered client filter
+		tars.RegisterClientFilter(func(ctx context.Context, msg *tars.Message, invoke tars.Invoke, timeout time.Duration) error {
+			for g := 0; g < sc.G; g++ {
+				wg.Add(1)
+				go logN(g, sc.N, true, &wg)
+			}
+			wg.Wait()
+			env.rec(flushSlot, c20KFlushCall, 0, 0, 0)
+			fmt.Fprintf(env.file, "P %d\n", time.Now().UnixNano())
+			c20Boom(sc.Kind)
+			return nil
+		})
+		sp := tars.NewServantProxy(tars.NewCommunicator(), "verif.c20.obj@tcp -h 127.0.0.1 -p 9 -t 1000")
+		var resp requestf.ResponsePacket
+		err := sp.TarsInvoke(context.Background(), 0, "op", []byte{}, nil, nil, &resp)
+		out.Hook = fmt.Sprintf("ServantProxy.TarsInvoke returned (%v) after the client filter panicked", err)
 		return out
 	case "second":
 		for g := 0; g < sc.G; g++ {
@@ -574,21 +667,20 @@ func c20RunScenario(sc c20Scenario) c20ChildOut {
 		wg.Wait()
 		env.rec(flushSlot, c20KFlushCall, 0, 0, 0)
 		fmt.Fprintf(env.file, "P %d\n", time.Now().UnixNano())
-		boom := func() {
+		boom := func(kind int) {
 			defer tars.CheckPanic()
-			var m map[string]int
-			m["boom"] = 1 // nil map write
+			c20Boom(kind)
 		}
 		if sc.Panics >= 2 { // several guarded goroutines panic within a short window; the process exits from one of them
 			for k := 0; k < sc.Panics; k++ {
 				go func(k int) {
 					time.Sleep(time.Duration(k*sc.GapMs) * time.Millisecond)
-					boom()
+					boom(sc.Kind + k)
 				}(k)
 			}
 			time.Sleep(c20Wait)
 		} else {
-			boom()
+			boom(sc.Kind)
 		}
 		out.Hook = "CheckPanic returned"
 		return out
@@ -913,7 +1005,7 @@ func c20Run(c *c20Case) []Failure {
 			break
 		}
 		if c20ExitMode(sc.Mode) && cerr == "" && out.Hook == "" && out.Exit != 255 {
-			fs = append(fs, Failure{Sig: "C20/panic-exit/exit-status", Desc: fmt.Sprintf("the process that panicked under the framework's CheckPanic guard ended with exit status %d, not with CheckPanic's os.Exit(-1) (255): the panic was not handled by CheckPanic (no stack dump, no FlushLogger)", out.Exit)})
+			fs = append(fs, Failure{Sig: "C20/panic-exit/exit-status", Desc: fmt.Sprintf("the process that panicked (value kind: %s; place: %s) under the framework's CheckPanic guard ended with exit status %d, not with CheckPanic's os.Exit(-1) (255): the panic was not handled by CheckPanic (no stack dump, no FlushLogger)", c20PanicKinds[sc.Kind%len(c20PanicKinds)], sc.Mode, out.Exit)})
 		}
 		for _, f := range c20Monitor(out.Events, out.FlushMs, out.TimeoutMs, c20SmallBacklog(sc)) {
 			dup := false
@@ -955,6 +1047,7 @@ var c20Replaying = false // --replay: the schedule of a scenario is not determin
 func c20Gen(tier string, rng *rand.Rand) []c20Case {
 	var cs []c20Case
 	procs := []int{1, 2, 4, 16}
+	kindNo := map[string]int{}
 	mk := func(mode string) c20Case {
 		sc := c20Scenario{Mode: mode, Seed: rng.Int63n(1 << 40), Procs: procs[rng.Intn(4)], W: 1 + rng.Intn(4), JSON: rng.Intn(4) == 0}
 		sc.Pad = []int{0, 8, 64, 600, 5000}[rng.Intn(5)]
@@ -1011,7 +1104,12 @@ func c20Gen(tier string, rng *rand.Rand) []c20Case {
 			sc.LastN = rng.Intn(6)
 			sc.Delay = []int{0, 0, 20}[rng.Intn(3)]
 			sc.W = 1 + rng.Intn(4)
+		case "clientcall":
+			sc.G = 1 + rng.Intn(4)
+			sc.N = 5 + rng.Intn(20)
+			sc.Delay = []int{0, 50, 50}[rng.Intn(3)]
 		case "invoke":
+			sc.InFilter = rng.Intn(3) == 0
 			sc.G = 1 + rng.Intn(4)
 			sc.N = 5 + rng.Intn(20)
 			sc.Delay = []int{0, 50, 50}[rng.Intn(3)]
@@ -1030,15 +1128,19 @@ func c20Gen(tier string, rng *rand.Rand) []c20Case {
 			sc.N = rng.Intn(10)
 			sc.LastN = 1 + rng.Intn(5)
 		}
+		if c20ExitMode(mode) { // every kind of panic value at every place, in turn
+			sc.Kind = kindNo[mode] % len(c20PanicKinds)
+			kindNo[mode]++
+		}
 		return c20Case{Sc: sc, Expect: true}
 	}
-	counts := map[string]int{"forced": 200, "stress": 120, "late": 40, "fullq": 4, "quiesce": 12, "panic": 30, "second": 4, "runexit": 8, "rawonly": 4, "swap": 16, "invoke": 10}
+	counts := map[string]int{"forced": 200, "stress": 120, "late": 40, "fullq": 4, "quiesce": 12, "panic": 32, "second": 4, "runexit": 8, "rawonly": 4, "swap": 16, "invoke": 16, "clientcall": 16}
 	if tier == "thorough" {
-		counts = map[string]int{"forced": 3000, "stress": 2000, "late": 600, "fullq": 30, "quiesce": 150, "panic": 400, "second": 20, "runexit": 100, "rawonly": 40, "swap": 200, "invoke": 120}
+		counts = map[string]int{"forced": 3000, "stress": 2000, "late": 600, "fullq": 30, "quiesce": 150, "panic": 400, "second": 20, "runexit": 100, "rawonly": 40, "swap": 200, "invoke": 128, "clientcall": 64}
 	}
 	// the smallest forced case first: one goroutine, one entry inside the window
 	cs = append(cs, c20Case{Sc: c20Scenario{Mode: "forced", G: 1, N: 0, Last: 1, LastN: 1, W: 1, Procs: 2, Seed: 1}, Expect: true})
-	for _, m := range []string{"forced", "stress", "late", "rawonly", "swap", "fullq", "quiesce", "panic", "invoke", "runexit", "second"} {
+	for _, m := range []string{"forced", "stress", "late", "rawonly", "swap", "fullq", "quiesce", "panic", "invoke", "clientcall", "runexit", "second"} {
 		for i := 0; i < counts[m]; i++ {
 			cs = append(cs, mk(m))
 		}
@@ -1201,6 +1303,12 @@ func init() {
 				m := c.Sc.Mode
 				if c.Sc.NoDump {
 					m += "-nodump"
+				}
+				if c20ExitMode(c.Sc.Mode) {
+					m += "-" + c20PanicKinds[c.Sc.Kind%len(c20PanicKinds)]
+					if c.Sc.InFilter {
+						m += "-filter"
+					}
 				}
 				if c.Sc.Panics >= 2 {
 					m += fmt.Sprintf("-x%d-gap%d", c.Sc.Panics, c.Sc.GapMs)
